@@ -204,3 +204,8 @@ pub(super) fn apply_random_to_beatmap(map: &mut Beatmap, seed: i32) {
         }
     }
 }
+
+// Verification hook (compiled only by `cargo kani`, which sets `--cfg kani`).
+#[cfg(kani)]
+#[path = "/verif/harness/taiko_convert.rs"]
+pub(crate) mod verif_harness;
